@@ -575,7 +575,7 @@ class BrownianInterval(brownian_base.BaseBrownian, _Interval):
             # can instead make both directions O(N log N).
             self._average_dt = 0
             self._tree_dt = t1 - t0
-            self._num_evaluations = -100  # start off with a warmup period to get a decent estimate of the average
+            self._num_evaluations = 0  # the first 100 queries are a warmup period to get a decent estimate of the average
             if dt is not None:
                 # Create the dependency tree based on the supplied hint `dt`.
                 self._create_dependency_tree(dt)
@@ -634,16 +634,16 @@ class BrownianInterval(brownian_base.BaseBrownian, _Interval):
         else:
             if self._dt is None and not self._halfway_tree:
                 self._num_evaluations += 1
-                # We start off with "negative" num evaluations, to give us a small warm-up period at the start.
-                if self._num_evaluations > 0:
-                    # Compute average step size so far
-                    dt = tb - ta
-                    self._average_dt = (dt + self._average_dt * (self._num_evaluations - 1)) / self._num_evaluations
-                    if self._average_dt < 0.5 * self._tree_dt:
-                        # If 'dt' wasn't specified, then check the average interval length against the size of the
-                        # bottom of the dependency tree. If we're below halfway then refine the tree by splitting all
-                        # the bottom pieces into two.
-                        self._create_dependency_tree(dt)
+                # Compute average step size so far. (Every query counts, also those of the warm-up period: the average
+                # must not be that of the one query that happens to come first after it.)
+                dt = tb - ta
+                self._average_dt = (dt + self._average_dt * (self._num_evaluations - 1)) / self._num_evaluations
+                if self._num_evaluations > 100 and self._average_dt < 0.5 * self._tree_dt:
+                    # If 'dt' wasn't specified, then check the average interval length against the size of the
+                    # bottom of the dependency tree. If we're below halfway then refine the tree down to the average
+                    # -- not down to the length of the current query, which may be arbitrarily short: the tree has about
+                    # (t1 - t0) / (36 * length) nodes.
+                    self._create_dependency_tree(self._average_dt)
 
             # Find the intervals that correspond to the query. We start our search at the last interval we accessed in
             # the binary tree, as it's likely that the next query will come nearby.
